@@ -121,6 +121,22 @@ def run(chk):
                 if not samew:
                     chk.violation("C13|pc_conditional|missing-feature-cells-weighted", f"pc_conditional(on=[s, t], group_weights) with missing cells in s = {r_mw}; "
                                   f"with the missing cell written as an empty text: {r_jw}", {**meta, "s": sm, "t": list(dfm["t"]), "weights": wm})
+        # several feature columns of DIFFERENT numeric kinds (an integer id beside a float), a missing float cell in one group only:
+        # a row's label depends on the row alone, so rows that agree coincide across groups
+        if t % 6 == 1:
+            ng = rng.randint(6, 12)
+            dfn = pd.DataFrame({"g": [rng.choice(["a", "b"]) for _ in range(ng)] + ["a", "b", "a", "b"],
+                                "i": [rng.choice([1, 2]) for _ in range(ng)] + [1, 1, 2, 2],
+                                "f": [rng.choice([2.5, 0.5]) for _ in range(ng)] + [2.5, 2.5, float("nan"), 0.5]})
+            lab = ["" if v != v else repr(float(v)) for v in dfn["f"]]
+            dfl = dfn.assign(lab=[f"{int(i_)}|{l_}" for i_, l_ in zip(dfn["i"], lab)])
+            r_n = core.call_real(lambda: st.pc_grouped_cross(dfn, "g", ["i", "f"]).values.tolist())
+            r_l = core.call_real(lambda: st.pc_grouped_cross(dfl, "g", "lab").values.tolist())
+            chk.count("pc_grouped_cross:int-beside-float")
+            eq_ = r_n[0] == r_l[0] == "ok" and all((x_ != x_ and y_ != y_) or abs(x_ - y_) <= 1e-12 for ra, rb in zip(r_n[1], r_l[1]) for x_, y_ in zip(ra, rb))
+            if not eq_:
+                chk.violation("C13|pc_grouped_cross|int-beside-float", f"pc_grouped_cross(on=[int column, float column]) = {str(r_n)[:200]}; the same rows keyed "
+                              f"by one label per row give {str(r_l)[:200]}", {"g": list(dfn["g"]), "i": list(dfn["i"]), "f": [None if v != v else v for v in dfn["f"]]})
         # group rows (what groupby hands to the statistics)
         ops.append({"op": "group_rows", "tbl": tbl})
         checks.append(("groupby", meta, core.call_real(lambda: [[skey(k), list(d["s"])] for k, d in sorted(list(df.groupby("g")))]), nt))
